@@ -390,9 +390,53 @@ def gen_flatten2(rng):
     return spec, meta
 
 
+def gen_flatten_out(rng):
+    """flatten() of 2-3 ranks that all belong to the output (the flattened output has to be
+    un-flattened in the footer), optionally followed by an occupancy split of the flattened rank."""
+    nr = rng.choice([2, 3, 3, 4])
+    ranks = rng.sample(RANKS, nr)
+    a_ranks = _perm(rng, ranks)
+    out_ranks = list(a_ranks) if rng.random() < 0.5 else _perm(rng, ranks)
+    decl = {"A": a_ranks}
+    facs = ["A" + _access(a_ranks)]
+    if rng.random() < 0.4:
+        b_ranks = _perm(rng, _subset(rng, ranks, 0.6)) or [ranks[0]]
+        decl["B"] = b_ranks
+        facs.append("B" + _access(b_ranks))
+    items = list(decl.items())
+    items.insert(rng.randrange(len(items) + 1), ("Z", out_ranks))
+    spec = {"decl": dict(items), "exprs": ["Z" + _access(out_ranks) + " = " + " * ".join(facs)], "rank_order": None,
+            "partitioning": None, "loop_order": None, "spacetime": None, "arch": None, "bindings": None, "format": None}
+    nf = min(nr, rng.choice([2, 3, 3]))
+    # adjacent ranks of A in A's order (half the time), otherwise any ranks in any order
+    if rng.random() < 0.5:
+        i0 = rng.randint(0, nr - nf)
+        fr = a_ranks[i0:i0 + nf]
+    else:
+        fr = rng.sample(ranks, nf)
+    name = "".join(fr)
+    part = {"(" + ", ".join(fr) + ")": ["flatten()"]}
+    nocc = rng.choice([0, 0, 1, 2])
+    if nocc:
+        part[name] = ["uniform_occupancy(A.%d)" % rng.choice([1, 2, 3, 4]) for _ in range(nocc)]
+    spec["partitioning"] = {"Z": part}
+    flat_levels = [name + str(i) for i in range(nocc, -1, -1)] if nocc else [name]
+    groups = [[r] for r in ranks if r not in fr] + [flat_levels]
+    if rng.random() < 0.6:
+        spec["loop_order"] = {"Z": loop_order_over(rng, groups, "ordered")}
+    extents = gen_extents(rng, spec, 5)
+    meta = {"ranks": ranks, "out_only": [], "kind": "times", "nterms": 1, "scalars": [], "part": part, "syms": {},
+            "lo_mode": "ordered" if spec["loop_order"] else "default", "extents": extents, "omode": "flatten_out",
+            "flat": {"tensor": "A", "ranks": fr, "under_shape": None, "nocc": nocc}, "nlevels": len(part) + nocc, "npart": len(part)}
+    return spec, meta
+
+
 def gen_occ(rng):
-    if rng.random() < 0.12:
+    x = rng.random()
+    if x < 0.12:
         return gen_flatten2(rng)
+    if x < 0.27:
+        return gen_flatten_out(rng)
     spec, meta = gen_plain(rng, max_ranks=4, allow_take=False, allow_out_only=False, product_only=True,
                            min_ranks=2)
     ranks = meta["ranks"]
@@ -472,7 +516,7 @@ def gen_affine(rng, allow_k3=False):
         q, s, w = names[d]
         has_filter = rng.random() < 0.85
         a = rng.choice([1, 1, 1, 2, 2, 3])
-        b = rng.choice([1, 1, 1, 2, 3]) if has_filter else 0
+        b = rng.choice([1, 1, 1, 2, 2, 3, 4]) if has_filter else 0
         if not has_filter:
             a = rng.choice([1, 2, 2, 3])
         dims.append({"q": q, "s": s if has_filter else None, "w": w, "a": a, "b": b})
@@ -494,6 +538,11 @@ def gen_affine(rng, allow_k3=False):
             terms.append(_iterm(d["b"], d["s"].lower()))
             f_ranks.append(d["s"]); f_acc.append(d["s"].lower())
         i_acc.append(" + ".join(terms))
+    # a second output variable inside the first affine access: O[p2, q] = I[p2 + q + s] * F[s]
+    two_out = ndim == 1 and dims[0]["s"] and not chan_c and not chan_m and rng.random() < 0.12
+    if two_out:
+        o_ranks.insert(0, "P"); o_acc.insert(0, "p")
+        i_acc[-1] = "p + " + i_acc[-1]
     decl_items = [("I", i_ranks), ("O", o_ranks)]
     facs = ["I[" + ", ".join(i_acc) + "]"]
     if any_filter:
@@ -501,6 +550,11 @@ def gen_affine(rng, allow_k3=False):
         facs.append("F[" + ", ".join(f_acc) + "]")
         if rng.random() < 0.5:
             facs.reverse()
+    # a third operand living on the (possibly partitioned) output rank: I[q+s] * B[q] * F[s]
+    third = any_filter and not two_out and rng.random() < 0.15
+    if third:
+        decl_items.append(("B", [dims[0]["q"]]))
+        facs.insert(rng.randrange(len(facs) + 1), "B[%s]" % dims[0]["q"].lower())
     expr = "O[" + ", ".join(o_acc) + "] = " + " * ".join(facs)
     spec = {"decl": dict(decl_items), "exprs": [expr], "rank_order": None, "partitioning": None,
             "loop_order": None, "spacetime": None, "arch": None, "bindings": None, "format": None}
@@ -510,6 +564,9 @@ def gen_affine(rng, allow_k3=False):
     for d in dims:
         extents[d["q"]] = rng.randint(1, 6)
         terms = [(d["q"], d["a"])]
+        if two_out:
+            extents["P"] = rng.randint(1, 3)
+            terms.append(("P", 1))
         if d["s"]:
             extents[d["s"]] = rng.randint(1, 4)
             terms.append((d["s"], d["b"]))
@@ -564,12 +621,14 @@ def gen_affine(rng, allow_k3=False):
             groups.append(["C"])
         if chan_m:
             groups.append(["M"])
+        if two_out:
+            groups.append(["P"])
         spec["loop_order"] = {"O": loop_order_over(rng, groups, "ordered")}
     if part:
         spec["partitioning"] = {"O": part}
     meta = {"ranks": default_loop_order(spec, "O"), "dims": dims, "extents": extents, "derived_extents": derived,
             "part": part, "syms": {}, "lo_mode": lo_mode, "nlevels": sum(plevels.values()), "npart": len(plevels),
-            "out_only": [], "kind": "affine"}
+            "out_only": [], "kind": "affine", "third": third, "two_out": two_out}
     return spec, meta
 
 
@@ -730,7 +789,16 @@ def add_spacetime(rng, spec, out, loop_ranks, allow_coord=True, no_coord=()):
 
 
 def gen_spacetime(rng):
-    base = _choice_w(rng, [("P", 3), ("S", 4), ("O", 3)])
+    base = _choice_w(rng, [("P", 3), ("S", 4), ("O", 3), ("A", 2)])
+    if base == "A":
+        spec, meta = gen_affine(rng)
+        out = "O"
+        if not spec.get("loop_order"):
+            return gen_spacetime(rng)
+        loop_ranks = list(spec["loop_order"][out])
+        st = add_spacetime(rng, spec, out, loop_ranks)
+        meta.update({"base": base, "loop_ranks": loop_ranks, "st": st, "out": out})
+        return spec, meta
     if base == "P":
         spec, meta = gen_plain(rng)
         meta.update({"part": {}, "syms": {}, "extents": gen_extents(rng, spec), "nlevels": 0, "npart": 0})
@@ -738,7 +806,7 @@ def gen_spacetime(rng):
         spec, meta = gen_shape(rng)
     else:
         spec, meta = gen_occ(rng)
-        if meta["omode"] == "flatten" and not spec.get("loop_order"):
+        if meta["omode"].startswith("flatten") and not spec.get("loop_order"):
             # default loop order of a flattened spec: let the explicit one be written
             return gen_spacetime(rng)
     loop_ranks = effective_loop_order(spec, "Z")
@@ -768,8 +836,70 @@ def gen_mixed(rng, weights=None):
         spec, meta = gen_cascade(rng)
     elif c == "T":
         spec, meta = gen_spacetime(rng)
+    elif c == "M":
+        from gen import metrics as gm
+        from sim import orch
+        spec, meta = gm.gen_metrics(rng, orch.repo_path())
     else:
         spec, meta = gen_plain(rng)
         meta.update({"part": {}, "syms": {}, "extents": gen_extents(rng, spec), "nlevels": 0, "npart": 0})
     meta["class"] = c
+    return spec, meta
+
+
+def gen_cascade_conv(rng):
+    """Cascade whose first Einsum uses index math (T[q] = I[a*q + b*s] * F[s]) and whose later
+    Einsums partition, flatten or re-use the same index variables: state carried over from the
+    index-math Einsum must not leak into its successors."""
+    a = rng.choice([1, 1, 2])
+    b = rng.choice([1, 1, 2])
+    terms = [_iterm(a, "q"), _iterm(b, "s")]
+    decl = {"I": ["W"], "F": ["S"], "T": ["Q"]}
+    exprs = ["T[q] = I[%s] * F[s]" % " + ".join(terms)]
+    extents = {"Q": rng.randint(2, 5), "S": rng.randint(1, 3)}
+    extents["W"] = a * (extents["Q"] - 1) + b * (extents["S"] - 1) + 1
+    part, lo = {}, {}
+    if rng.random() < 0.4:
+        lo["T"] = _perm(rng, ["Q", "S"])
+    # second Einsum reads T over Q and one or two more ranks, sometimes re-using the names S / W as plain ranks
+    extra = rng.sample(["M", "N", "S", "W"], rng.randint(1, 2))
+    for r in extra:
+        extents.setdefault(r, rng.randint(1, 5))
+    a_ranks = _perm(rng, ["Q"] + extra)
+    decl["A"] = a_ranks
+    out_ranks = _perm(rng, _subset(rng, ["Q"] + extra, 0.6))
+    decl["Z"] = out_ranks
+    exprs.append("Z" + _access(out_ranks) + " = " + " * ".join(_perm(rng, ["T[q]", "A" + _access(a_ranks)])))
+    all_ranks = default_loop_order({"decl": decl, "exprs": exprs}, "Z", exprs[1])
+    kind = _choice_w(rng, [("shape", 3), ("occ", 3), ("flatten", 3), ("none", 1)])
+    groups = [[r] for r in all_ranks]
+    if kind == "shape":
+        r = rng.choice(all_ranks)
+        dirs, _ = shape_stack(rng, r, extents[r], max_levels=2, symbolic_p=0.0)
+        part["Z"] = {r: dirs}
+        groups = [levels_of(x, len(dirs)) if x == r else [x] for x in all_ranks]
+    elif kind == "occ":
+        r = rng.choice(a_ranks)
+        part["Z"] = {r: ["uniform_occupancy(A.%d)" % rng.choice([1, 2, 3])]}
+        groups = [levels_of(x, 1) if x == r else [x] for x in all_ranks]
+    elif kind == "flatten" and len(a_ranks) >= 2:
+        fr = rng.sample(a_ranks, 2)
+        name = "".join(fr)
+        part["Z"] = {"(%s, %s)" % tuple(fr): ["flatten()"]}
+        groups = [[x] for x in all_ranks if x not in fr] + [[name]]
+    if kind != "none" or rng.random() < 0.5:
+        lo["Z"] = loop_order_over(rng, groups, "ordered")
+    if rng.random() < 0.4:
+        # a third, plain Einsum
+        decl["B"] = list(out_ranks)
+        decl["Y"] = list(out_ranks)
+        exprs.append("Y" + _access(out_ranks) + " = Z" + _access(out_ranks) + " + B" + _access(out_ranks))
+    items = list(decl.items())
+    rng.shuffle(items)
+    spec = {"decl": dict(items), "exprs": exprs, "rank_order": None, "partitioning": part or None,
+            "loop_order": lo or None, "spacetime": None, "arch": None, "bindings": None, "format": None}
+    meta = {"einsums": [{"out": dense.output_name(e), "kind": "conv" if i == 0 else kind, "part": part.get(dense.output_name(e))}
+                        for i, e in enumerate(exprs)],
+            "syms": {}, "extents": extents, "n": len(exprs), "nlevels": 1 if part else 0, "npart": len(part),
+            "derived_extents": {"W": ([("Q", a), ("S", b)], 0)} if False else {}}
     return spec, meta
